@@ -66,6 +66,19 @@ def trace_check(recipe, m, opts=(False, False)):
         if not isinstance(view, np.ndarray) or view.shape != (s.mdim, s.c.shape[-1]): probs.append(f'call {k}: view shape {getattr(view, "shape", None)}'); break
         if not np.shares_memory(view, s.c): probs.append(f'call {k}: values are not a view of the signal memory'); break
         if not opts[0] and not np.array_equal(snap, s.c[s.c_locs[e.index]]): probs.append(f'call {k}: values passed are not the freshly computed values of line {e.index}'); break
+    if probs: return probs, len(exp)
+    # any callable is a callback: an object with __call__ that happens to be falsy (an empty recorder list), and one that returns a value
+    class Recorder(list):
+        def __call__(self, line, view): self.append(line.index)
+    rec = Recorder()
+    s2 = LogicSim(c, 8, m=m, c_reuse=opts[0], strip_forks=opts[1]); s2.s[0] = s.s[0]; s2.s_to_c(); s2.c_prop(rec)
+    if list(rec) != [e.index for e in exp]: probs.append(f'a callable recorder object (empty list subclass) got {len(rec)} calls for {len(exp)} evaluated signals')
+    # cycle(k): the callback is invoked in every one of the k propagations, whatever it returns
+    cnt = []
+    def cb_true(line, view):
+        cnt.append(line.index); return True
+    s3 = LogicSim(c, 8, m=m, c_reuse=opts[0], strip_forks=opts[1]); s3.s[0] = s.s[0]; s3.cycle(3, cb_true)
+    if cnt != [e.index for e in exp] * 3: probs.append(f'cycle(3, callback returning True): {len(cnt)} calls, expected 3 x {len(exp)}')
     return probs, len(exp)
 
 
